@@ -150,24 +150,133 @@ Qed.
 Lemma wf_OID_sd : oid_ok OID_sd = true /\ all_bytes OID_sd = true /\ small OID_sd.
 Proof. split; [vm_compute; reflexivity|]. split; [vm_compute; reflexivity|]. unfold small. vm_compute. reflexivity. Qed.
 
+Lemma wf_parsed S ci sig : signer_wf S -> all_bytes sig = true -> wf_ci ci -> small (enc_tlv T_SEQ (si_body S sig)) ->
+  wf_cms (mkCms OID_sd (Some (parsed_sd S ci sig))).
+Proof.
+  intros Hw Hs Hci Hsi. destruct wf_OID_sd as (H1 & H2 & H3). unfold wf_cms. cbn [o_ctype o_sd].
+  split; [exact H1|]. split; [exact H2|]. split; [exact H3|]. unfold wf_sd.
+  split. { exists [1]. split; [reflexivity|]. split; [reflexivity|]. split; [unfold small; cbn; lia|reflexivity]. }
+  split. { cbn [parsed_sd sd_dalgs]. constructor; [|constructor]. apply Hw. }
+  split. { exact Hci. }
+  split. { cbn [parsed_sd sd_certs opt_list]. apply Hw. }
+  split. { cbn [parsed_sd sd_crls opt_list]. constructor. }
+  cbn [parsed_sd sd_sis]. constructor; [|constructor]. apply (emit_parsed_si S sig Hw Hs Hsi).
+Qed.
+Lemma emit_built_parsed S ci sig : signer_wf S -> all_bytes sig = true -> small (enc_tlv T_SEQ (si_body S sig)) ->
+  emit_cms (mkCms OID_sd (Some (built_sd S ci sig))) = emit_cms (mkCms OID_sd (Some (parsed_sd S ci sig))).
+Proof. intros Hw Hs Hsi. unfold emit_cms. cbn [o_ctype o_sd]. rewrite (emit_sd_built_parsed S ci sig Hw Hs Hsi). reflexivity. Qed.
+Lemma emit_cms_bytes o sd : wf_cms o -> o_sd o = Some sd -> small (emit_cms o) -> all_bytes (emit_cms o) = true.
+Proof.
+  intros (H1 & H2 & H3 & Hwsd) Hsd Hsm. rewrite Hsd in Hwsd. unfold emit_cms in *. rewrite Hsd in *.
+  pose proof Hsm as Hs1. apply small_enc_tlv in Hs1.
+  apply small_app in Hs1 as [_ Hs2]. pose proof Hs2 as Hs3. apply small_enc_tlv in Hs3. pose proof Hs3 as Hs4. apply small_enc_tlv in Hs4.
+  pose proof (emit_sd_body_bytes _ Hwsd Hs4) as Bsd.
+  set (inner := enc_tlv T_SEQ (emit_sd_body sd)) in *. set (wrap := enc_tlv OCT_explicit inner) in *.
+  set (oidt := enc_tlv T_OID (o_ctype o)) in *.
+  assert (Binner : all_bytes inner = true) by (apply (valid_full_bytes (mkTlv T_SEQ (emit_sd_body sd) inner)); apply valid_enc; [tagok|exact Hs4|exact Bsd]).
+  assert (Bwrap : all_bytes wrap = true) by (apply (valid_full_bytes (mkTlv OCT_explicit inner wrap)); apply valid_enc; [tagok|exact Hs3|exact Binner]).
+  assert (Boid : all_bytes oidt = true) by (apply (valid_full_bytes (mkTlv T_OID (o_ctype o) oidt)); apply valid_enc; [tagok|exact H3|exact H2]).
+  apply (valid_full_bytes (mkTlv T_SEQ (oidt ++ wrap) (enc_tlv T_SEQ (oidt ++ wrap)))). apply valid_enc; [tagok|apply small_enc_tlv in Hsm; exact Hsm|].
+  apply all_bytes_app_iff. split; assumption.
+Qed.
+
 Theorem built_reparse S ci sig : signer_wf S -> all_bytes sig = true -> wf_ci ci ->
   small (emit_cms (mkCms OID_sd (Some (built_sd S ci sig)))) ->
-  parse_cms (emit_cms (mkCms OID_sd (Some (built_sd S ci sig)))) = Ok (mkCms OID_sd (Some (parsed_sd S ci sig))).
+  parse_cms (emit_cms (mkCms OID_sd (Some (built_sd S ci sig)))) = Ok (mkCms OID_sd (Some (parsed_sd S ci sig))) /\
+  all_bytes (emit_cms (mkCms OID_sd (Some (built_sd S ci sig)))) = true.
 Proof.
   intros Hw Hs Hci Hsm. pose proof (small_sis_inner _ _ _ Hsm) as Hsi.
-  assert (E : emit_cms (mkCms OID_sd (Some (built_sd S ci sig))) = emit_cms (mkCms OID_sd (Some (parsed_sd S ci sig)))).
-  { unfold emit_cms. cbn [o_ctype o_sd]. rewrite (emit_sd_built_parsed S ci sig Hw Hs Hsi). reflexivity. }
-  rewrite E in Hsm |- *.
-  rewrite cms_reparse; [| |exact Hsm].
-  - unfold norm_cms, norm_sd, parsed_sd. cbn [o_ctype o_sd option_map sd_version sd_dalgs sd_ci sd_certs sd_crls sd_sis sort_on fold_right insert_on]. reflexivity.
-  - destruct wf_OID_sd as (H1 & H2 & H3). unfold wf_cms. cbn [o_ctype o_sd].
-    split; [exact H1|]. split; [exact H2|]. split; [exact H3|]. unfold wf_sd.
-    split. { exists [1]. split; [reflexivity|]. split; [reflexivity|]. split; [unfold small; cbn; lia|reflexivity]. }
-    split. { cbn [parsed_sd sd_dalgs]. constructor; [|constructor]. apply Hw. }
-    split. { exact Hci. }
-    split. { cbn [parsed_sd sd_certs opt_list]. apply Hw. }
-    split. { cbn [parsed_sd sd_crls opt_list]. constructor. }
-    cbn [parsed_sd sd_sis]. constructor; [|constructor]. apply (emit_parsed_si S sig Hw Hs Hsi).
+  rewrite (emit_built_parsed S ci sig Hw Hs Hsi) in Hsm |- *.
+  pose proof (wf_parsed S ci sig Hw Hs Hci Hsi) as Hwf.
+  split; [|apply (emit_cms_bytes _ _ Hwf eq_refl Hsm)].
+  rewrite cms_reparse; [|exact Hwf|exact Hsm].
+  unfold norm_cms, norm_sd, parsed_sd. cbn [o_ctype o_sd option_map sd_version sd_dalgs sd_ci sd_certs sd_crls sd_sis sort_on fold_right insert_on]. reflexivity.
+Qed.
+
+Lemma children_of tag body ts : tag_ok tag -> Forall valid ts -> body = concat (map t_full ts) ->
+  children (mkTlv tag body (enc_tlv tag body)) = Some ts.
+Proof. intros _ Hv ->. unfold children. cbn [t_body]. rewrite read_all_concat by exact Hv. reflexivity. Qed.
+
+(* the RFC 5652 walker accepts every catalog relic writes and finds: the input's encapsulated content info, the configured chain, no CRL,
+   the one new signer info *)
+Lemma spec_regions_parsed S ci sig : signer_wf S -> all_bytes sig = true -> wf_ci ci ->
+  small (emit_cms (mkCms OID_sd (Some (parsed_sd S ci sig)))) -> small (enc_tlv T_SEQ (si_body S sig)) ->
+  spec_regions (emit_cms (mkCms OID_sd (Some (parsed_sd S ci sig)))) =
+  Some (mkReg (ci_raw ci) (sort_b (sg_chain S)) [] [enc_tlv T_SEQ (si_body S sig)]).
+Proof.
+  intros Hw Hs Hci Hsm Hsi.
+  destruct (si_reparse S sig Hw Hs Hsi) as (Vsi & Tsi & _).
+  destruct (emit_parsed_si S sig Hw Hs Hsi) as [Esi _].
+  destruct (wf_ci_mk _ Hci) as (Veci & Teci & _). pose proof (emit_ci_wf _ Hci) as Eci.
+  destruct Hw as (_ & _ & _ & _ & Hd & _ & Hch & _).
+  destruct (wf_raws_read _ Hch) as (cts & Vcts & Ech).
+  destruct wf_OID_sd as (O1 & O2 & O3).
+  unfold emit_cms in *. cbn [o_ctype o_sd] in *.
+  set (sdbody := emit_sd_body (parsed_sd S ci sig)) in *.
+  pose proof Hsm as S0. apply small_enc_tlv in S0. pose proof S0 as S1. apply small_app in S1 as [_ S1].
+  pose proof S1 as S2. apply small_enc_tlv in S2. pose proof S2 as S3. apply small_enc_tlv in S3.
+  (* the five elements of SignedData *)
+  set (tver := mkTlv T_INT [1] (enc_tlv T_INT [1])).
+  set (tdal := mkTlv OCT_dalgs (emit_algid (sg_dalg S)) (enc_tlv OCT_dalgs (emit_algid (sg_dalg S)))).
+  set (teci := mk_raw (ci_raw ci)).
+  set (tcerts := mkTlv OCT_certs (concat (sg_chain S)) (enc_tlv OCT_certs (concat (sg_chain S)))).
+  set (tsis := mkTlv OCT_sis (enc_tlv T_SEQ (si_body S sig)) (enc_tlv OCT_sis (enc_tlv T_SEQ (si_body S sig)))).
+  assert (Ebody : sdbody = concat (map t_full [tver; tdal; teci; tcerts; tsis])).
+  { unfold sdbody, emit_sd_body, parsed_sd. cbn [sd_version sd_dalgs sd_ci sd_certs sd_crls sd_sis map option_map emit_opt_list].
+    rewrite dalgs_set_v, sis_set_v, certs_set_v. cbn [maybe_sort sort_b fold_right insert_b concat]. rewrite (app_nil_r (emit_algid (sg_dalg S))), (app_nil_r (emit_si (parsed_si S sig))). rewrite Eci, Esi.
+    change sign_sd_Version with 1. change (enc_int 1) with [1]. cbn [map concat t_full tver tdal teci tcerts tsis mk_raw app]. rewrite (app_nil_r (enc_tlv OCT_sis (enc_tlv T_SEQ (si_body S sig)))). reflexivity. }
+  pose proof S3 as Sbody. rewrite Ebody in S3. cbn [map concat] in S3. rewrite app_nil_r in S3.
+  apply small_app in S3 as [Sv S3]. apply small_app in S3 as [Sd S3]. apply small_app in S3 as [Se S3]. apply small_app in S3 as [Sc Ss].
+  cbn [t_full tver tdal tcerts tsis] in Sv, Sd, Sc, Ss.
+  assert (Vver : valid tver) by (apply valid_enc; [tagok|unfold small; cbn; lia|reflexivity]).
+  assert (Vdal : valid tdal).
+  { apply valid_enc; [rewrite OCT_dalgs_v; tagok|apply small_enc_tlv in Sd; exact Sd|]. apply small_enc_tlv in Sd. destruct (algid_reparse _ Hd Sd) as (V & _). apply (valid_full_bytes _ V). }
+  assert (Vcerts : valid tcerts).
+  { apply valid_enc; [rewrite OCT_certs_v; tagok|apply small_enc_tlv in Sc; exact Sc|]. rewrite Ech. apply all_bytes_concat_valid. exact Vcts. }
+  assert (Vsis : valid tsis).
+  { apply valid_enc; [rewrite OCT_sis_v; tagok|apply small_enc_tlv in Ss; exact Ss|]. apply (valid_full_bytes _ Vsi). }
+  assert (Vall : Forall valid [tver; tdal; teci; tcerts; tsis]) by exact (Forall_cons _ Vver (Forall_cons _ Vdal (Forall_cons _ Veci (Forall_cons _ Vcerts (Forall_cons _ Vsis (Forall_nil _)))))).
+  assert (Bbody : all_bytes sdbody = true) by (rewrite Ebody; apply all_bytes_concat_valid; exact Vall).
+  set (inner := enc_tlv T_SEQ sdbody) in *.
+  set (sdt := mkTlv T_SEQ sdbody inner).
+  assert (Vsdt : valid sdt) by (apply valid_enc; [tagok|exact Sbody|exact Bbody]).
+  set (wrapb := enc_tlv OCT_explicit inner) in *.
+  set (wrap := mkTlv OCT_explicit inner wrapb).
+  assert (Vwrap : valid wrap) by (apply valid_enc; [rewrite OCT_explicit_v; tagok|exact S2|apply (valid_full_bytes _ Vsdt)]).
+  set (ct := mkTlv T_OID OID_sd (enc_tlv T_OID OID_sd)).
+  assert (Vct : valid ct) by (apply valid_enc; [tagok|exact O3|exact O2]).
+  set (topbody := enc_tlv T_OID OID_sd ++ wrapb) in *.
+  set (top := mkTlv T_SEQ topbody (enc_tlv T_SEQ topbody)).
+  assert (Btop : all_bytes topbody = true) by (unfold topbody; apply all_bytes_app_iff; split; [apply (valid_full_bytes _ Vct)|apply (valid_full_bytes _ Vwrap)]).
+  assert (Vtop : valid top) by (apply valid_enc; [tagok|exact S0|exact Btop]).
+  (* the walk *)
+  unfold spec_regions, one.
+  change (enc_tlv T_SEQ topbody) with (t_full top). rewrite <- (app_nil_r (t_full top)).
+  change (t_full top ++ []) with (concat (map t_full [top])). rewrite read_all_concat by (constructor; [exact Vtop|constructor]).
+  change (t_tag top =? 48) with true. cbn [negb].
+  assert (Ctop : children top = Some [ct; wrap]).
+  { unfold children. cbn [top t_body]. unfold topbody. change (enc_tlv T_OID OID_sd ++ wrapb) with (concat (map t_full [ct; wrap]) ) || idtac.
+    replace (enc_tlv T_OID OID_sd ++ wrapb) with (concat (map t_full [ct; wrap])) by (cbn [map concat t_full ct wrap]; rewrite app_nil_r; reflexivity).
+    rewrite read_all_concat by (constructor; [exact Vct|constructor; [exact Vwrap|constructor]]). reflexivity. }
+  rewrite Ctop. cbn [t_tag ct wrap]. rewrite OCT_explicit_v. change ((T_OID =? 6) && (160 =? 160)) with true. cbn [negb].
+  assert (Cwrap : children wrap = Some [sdt]).
+  { unfold children. cbn [wrap t_body]. replace inner with (concat (map t_full [sdt])) by (cbn [map concat t_full sdt]; apply app_nil_r).
+    rewrite read_all_concat by (constructor; [exact Vsdt|constructor]). reflexivity. }
+  rewrite Cwrap. change (t_tag sdt =? 48) with true. cbn [negb].
+  assert (Csdt : children sdt = Some [tver; tdal; teci; tcerts; tsis]).
+  { unfold children. cbn [sdt t_body]. rewrite Ebody. rewrite read_all_concat by exact Vall. reflexivity. }
+  rewrite Csdt. cbn [t_tag tver tdal]. rewrite OCT_dalgs_v. replace (t_tag teci) with T_SEQ by (symmetry; exact Teci).
+  change ((T_INT =? 2) && (49 =? 49) && (T_SEQ =? 48)) with true. cbn [negb].
+  unfold spec_split_optional at 1. cbn [t_tag tcerts]. rewrite OCT_certs_v. change (160 =? 160) with true. cbv iota.
+  assert (Ccerts : children tcerts = Some cts).
+  { unfold children. cbn [tcerts t_body]. rewrite Ech. rewrite read_all_concat by exact Vcts. reflexivity. }
+  rewrite Ccerts. unfold spec_split_optional. cbn [t_tag tsis]. rewrite OCT_sis_v. change (49 =? 161) with false. cbv iota.
+  change (49 =? 49) with true. cbn [negb].
+  assert (Csis : children tsis = Some [si_tlv S sig]).
+  { unfold children. cbn [tsis t_body]. replace (enc_tlv T_SEQ (si_body S sig)) with (concat (map t_full [si_tlv S sig])) by (cbn [map concat t_full si_tlv]; apply app_nil_r).
+    rewrite read_all_concat by (constructor; [exact Vsi|constructor]). reflexivity. }
+  rewrite Csis. cbn [map all_some forallb]. rewrite Tsi. change (T_SEQ =? 48) with true. cbn [andb].
+  cbn [t_full teci mk_raw si_tlv sort_b fold_right insert_b]. rewrite <- Ech. reflexivity.
 Qed.
 
 (* ================================================================== SignedData.Verify on one signer info without attributes *)
@@ -254,9 +363,431 @@ Proof.
                  s = parsed_si S sig)).
   { intros content. rewrite (step_parsed_eq C S sig content certs cerr Hw Hs Hsm).
     destruct (ref_sd_step _ _ _ _ _ (new_si S sig)); cbn [same_verdict]; split; try reflexivity; intros s0 c0 H; inversion H; reflexivity. }
-  destruct (ci_bytes_m C ci) as [[b|]| |]; cbn [same_verdict].
-  - destruct ext as [e|]; [destruct (bytes_eqb e b)|]; try apply K. split; [reflexivity|discriminate].
-  - destruct ext as [e|]; [apply K|]. split; [reflexivity|discriminate].
-  - split; [reflexivity|discriminate].
-  - split; [reflexivity|discriminate].
+  destruct (ci_bytes_m C ci) as [[b|]| |].
+  - destruct ext as [e|].
+    + destruct (bytes_eqb e b); [exact (K b)|]. split; [reflexivity|intros s0 c0 H; discriminate H].
+    + exact (K b).
+  - destruct ext as [e|]; [exact (K e)|]. split; [reflexivity|intros s0 c0 H; discriminate H].
+  - split; [reflexivity|intros s0 c0 H; discriminate H].
+  - split; [reflexivity|intros s0 c0 H; discriminate H].
+Qed.
+
+(* ================================================================== signers/cat.sign *)
+Lemma cat_layout_ok_true : cat_layout_ok = true. Proof. vm_compute. reflexivity. Qed.
+Lemma builder_layout_ok_true : builder_layout_ok = true. Proof. vm_compute. reflexivity. Qed.
+Lemma tsm_layout_ok_true : tsm_layout_ok = true. Proof. vm_compute. reflexivity. Qed.
+Lemma pkcs_layout_ok_true : pkcs_layout_ok = true. Proof. vm_compute. reflexivity. Qed.
+
+Lemma built_cms_noattrs ctype digest ci S sig :
+  built_cms (mkB ctype digest None) ci (sg_chain S) (sg_issuer S) (sg_serial S) (sg_dalg S) (sg_ealg S) sig = mkCms OID_sd (Some (built_sd S ci sig)).
+Proof.
+  unfold built_cms, built_si, built_sd, new_si, OID_sd. destruct (builder_no_attrs (mkB ctype digest None) eq_refl) as [E _]. rewrite E. reflexivity.
+Qed.
+Lemma builder_sign_noattrs C sgn S ci digest n : builder_sign C sgn S ci digest None = Ok n ->
+  n = mkCms OID_sd (Some (built_sd S ci (sgn (sg_key S) digest))) /\ sg_chain S <> [] /\ sg_samekey S = true.
+Proof.
+  unfold builder_sign. change (b_sign_no_content false) with false. cbv iota. unfold b_sign_bad_cert.
+  destruct ((zlen (sg_chain S) <? 1) || negb (sg_samekey S)) eqn:E; [discriminate|]. apply orb_false_iff in E as [E1 E2].
+  destruct (builder_no_attrs (mkB (ci_ctype ci) digest None) eq_refl) as [_ Ep]. rewrite Ep. cbn [bind fst snd]. change (0 =? 0) with true. cbv iota.
+  intros H. injection H as <-. split; [apply built_cms_noattrs|]. split.
+  - intros Hn. rewrite Hn in E1. discriminate.
+  - destruct (sg_samekey S); [reflexivity|discriminate].
+Qed.
+Lemma ts_and_marshal_inv C o y : ts_and_marshal C o = Ok y -> y = emit_cms o /\ exists s c, sd_verify C (sd_of o) Wnil false = SdAccept s c.
+Proof.
+  unfold ts_and_marshal. rewrite tsm_layout_ok_true. cbn [negb]. destruct (sd_verify C (sd_of o) Wnil false) as [s c|e] eqn:E; [|discriminate].
+  intros H. injection H as <-. split; [reflexivity|eauto].
+Qed.
+
+Lemma cat_sign_inv C sgn S x y : cat_sign C sgn S x = Ok y ->
+  exists o sd b, parse_cms x = Ok o /\ o_sd o = Some sd /\ ci_ctype (sd_ci sd) = OID_ctl /\
+    ci_bytes (ci_raw (sd_ci sd)) = Ok (Some b) /\
+    y = emit_cms (mkCms OID_sd (Some (built_sd S (sd_ci sd) (sgn (sg_key S) (c_H C (sg_hash S) b))))) /\
+    (exists s c, sd_verify C (built_sd S (sd_ci sd) (sgn (sg_key S) (c_H C (sg_hash S) b))) Wnil false = SdAccept s c) /\
+    sg_chain S <> [] /\ sg_samekey S = true.
+Proof.
+  unfold cat_sign. rewrite cat_layout_ok_true. cbn [negb]. intros H.
+  apply bind_ok in H as (o & Ho & H). unfold cat_refuses in H.
+  destruct (bytes_eqb (ci_ctype (sd_ci (sd_of o))) OID_ctl) eqn:Ec; cbn [negb] in H; [|discriminate].
+  apply list_eqb_Z_eq in Ec.
+  destruct (o_sd o) as [sd|] eqn:Esd; [|unfold sd_of in Ec; rewrite Esd in Ec; cbn in Ec; discriminate].
+  assert (Esdo : sd_of o = sd) by (unfold sd_of; rewrite Esd; reflexivity). rewrite Esdo in *.
+  apply bind_ok in H as ([ci digest] & Hsc & H). unfold set_content_info in Hsc. rewrite builder_layout_ok_true in Hsc. cbn [negb] in Hsc.
+  apply bind_ok in Hsc as (blob & Hb & Hsc). injection Hsc as <- <-. cbn [fst snd] in H.
+  apply bind_ok in H as (n & Hn & H). apply builder_sign_noattrs in Hn as (-> & Hch & Hsk).
+  apply ts_and_marshal_inv in H as (-> & s & c & Hv). unfold sd_of in Hv. cbn [o_sd] in Hv.
+  destruct (sd_verify_embedded_content _ _ _ _ Hv) as (b & certs & Hcb & _). cbn [built_sd sd_ci] in Hcb.
+  rewrite Hcb in Hb. injection Hb as <-.
+  exists o, sd, b. repeat split; try assumption; try reflexivity. exists s, c. exact Hv.
+Qed.
+
+Lemma parse_cms_wf_ci x o sd : all_bytes x = true -> parse_cms x = Ok o -> o_sd o = Some sd -> wf_ci (sd_ci sd).
+Proof.
+  intros Hb Hp Hs. pose proof (parse_cms_wf x o Hb Hp) as (_ & _ & _ & Hw). rewrite Hs in Hw. apply Hw.
+Qed.
+
+(* C03 / C08 (cat_content_preserved): re-signing keeps the encapsulated content info — content type and CTL — byte for byte; the
+   output, read again by pkcs7.Unmarshal, carries exactly the configured chain and ONE signer info, the new one; whatever the input
+   carried as certificates, CRLs and signer infos is gone *)
+Theorem content_preserved C sgn S x y : all_bytes x = true -> signer_wf S -> (forall k d, all_bytes (sgn k d) = true) ->
+  cat_sign C sgn S x = Ok y -> small y ->
+  exists o sd b sig,
+    parse_cms x = Ok o /\ o_sd o = Some sd /\ ci_bytes (ci_raw (sd_ci sd)) = Ok (Some b) /\ sig = sgn (sg_key S) (c_H C (sg_hash S) b) /\
+    parse_cms y = Ok (mkCms OID_sd (Some (parsed_sd S (sd_ci sd) sig))) /\
+    subslice (ci_raw (sd_ci sd)) x /\ subslice (ci_raw (sd_ci sd)) y /\
+    spec_regions y = Some (mkReg (ci_raw (sd_ci sd)) (sort_b (sg_chain S)) [] [enc_tlv T_SEQ (si_body S sig)]).
+Proof.
+  intros Hb Hw Hsg H Hsm. destruct (cat_sign_inv _ _ _ _ _ H) as (o & sd & b & Ho & Hsd & Hct & Hcb & Hy & _).
+  set (sig := sgn (sg_key S) (c_H C (sg_hash S) b)) in *.
+  pose proof (parse_cms_wf_ci x o sd Hb Ho Hsd) as Hci.
+  destruct (built_reparse S (sd_ci sd) sig Hw (Hsg _ _) Hci ltac:(rewrite <- Hy; exact Hsm)) as [Hrep Hby]. rewrite <- Hy in Hrep, Hby.
+  exists o, sd, b, sig. split; [exact Ho|]. split; [exact Hsd|]. split; [exact Hcb|]. split; [reflexivity|]. split; [exact Hrep|].
+  split. { apply (regions_are_subslices x o sd _ Hb Ho Hsd). left. reflexivity. }
+  split. { apply (regions_are_subslices y _ (parsed_sd S (sd_ci sd) sig) _ Hby Hrep eq_refl). left. reflexivity. }
+  pose proof (small_sis_inner S (sd_ci sd) sig ltac:(rewrite <- Hy; exact Hsm)) as Hsi.
+  rewrite Hy, (emit_built_parsed S (sd_ci sd) sig Hw (Hsg _ _) Hsi).
+  apply spec_regions_parsed; [exact Hw|apply Hsg|exact Hci| |exact Hsi].
+  rewrite <- (emit_built_parsed S (sd_ci sd) sig Hw (Hsg _ _) Hsi), <- Hy. exact Hsm.
+Qed.
+
+(* what ContentInfo.Bytes returns is what the RFC 5652 reader calls the eContent octets, whenever that reader accepts the element *)
+Lemma ci_bytes_spec_agree raw b b' : all_bytes raw = true -> ci_bytes raw = Ok (Some b) -> spec_econtent raw = Some (Some b') -> b' = b.
+Proof.
+  intros Hb Hc Hs. unfold spec_econtent, one in Hs.
+  destruct (read_all raw) as [[|eci [|]]| |] eqn:Er; try discriminate.
+  apply read_all_cons in Er as (_ & Hve & _ & Hre & _); [|exact Hb]. cbn [map concat] in Hre.
+  destruct (children eci) as [[|ot [|wrap [|]]]|] eqn:Ec; try discriminate.
+  apply children_ok in Ec; [|exact Hve].
+  apply read_all_cons in Ec as (_ & Hvo & Hvw & Hro & Hrw); [|apply valid_body_bytes; exact Hve]. cbn [map concat] in Hro, Hrw.
+  assert (Hvw' : valid wrap) by (inversion Hvw; assumption).
+  apply read_all_cons in Hrw as (_ & _ & _ & Hrw & _); [|rewrite app_nil_r; apply valid_full_bytes; exact Hvw']. cbn [map concat] in Hrw.
+  destruct (t_tag wrap =? 160); [|discriminate].
+  destruct (children wrap) as [[|e [|]]|] eqn:Ew; try discriminate.
+  apply children_ok in Ew; [|exact Hvw'].
+  apply read_all_cons in Ew as (_ & _ & _ & Hrb & _); [|apply valid_body_bytes; exact Hvw']. injection Hs as <-.
+  unfold ci_bytes, read_expect in Hc. rewrite Hre in Hc. cbn [bind fst] in Hc.
+  destruct (t_tag eci =? T_SEQ); [|discriminate]. rewrite Hro in Hc. cbn [bind fst snd] in Hc.
+  destruct (t_tag ot =? T_OID); [|discriminate]. destruct (negb (oid_ok (t_body ot))); [discriminate|].
+  rewrite Hrw in Hc. rewrite Hrb in Hc. injection Hc as <-. reflexivity.
+Qed.
+
+(* C05 (cat_digest_is_econtent_octets): the digest the new signature covers is the digest of the content octets of the element inside
+   [0] of the encapsulated content info — identifier and length octets of that element excluded —, the same octets on which the
+   RFC 5652 reader and, when the input is SEQUENCE { type, [0] { tag len payload } }, the payload *)
+Theorem digest_is_econtent C sgn S x y : all_bytes x = true -> signer_wf S -> (forall k d, all_bytes (sgn k d) = true) ->
+  cat_sign C sgn S x = Ok y -> small y ->
+  exists o sd b, parse_cms x = Ok o /\ o_sd o = Some sd /\ cat_hashin x = Ok b /\
+    parse_cms y = Ok (mkCms OID_sd (Some (parsed_sd S (sd_ci sd) (sgn (sg_key S) (c_H C (sg_hash S) b))))) /\
+    (forall b', spec_econtent (ci_raw (sd_ci sd)) = Some (Some b') -> b' = b) /\
+    (forall ctype tag payload, ci_raw (sd_ci sd) = enc_tlv T_SEQ (enc_tlv T_OID ctype ++ enc_tlv 160 (enc_tlv tag payload)) ->
+       small (ci_raw (sd_ci sd)) -> oid_ok ctype = true -> all_bytes ctype = true -> tag_ok tag -> all_bytes payload = true -> b = payload).
+Proof.
+  intros Hb Hw Hsg H Hsm. destruct (content_preserved C sgn S x y Hb Hw Hsg H Hsm) as (o & sd & b & sig & Ho & Hsd & Hcb & -> & Hrep & Hsub & _).
+  exists o, sd, b. split; [exact Ho|]. split; [exact Hsd|].
+  split. { unfold cat_hashin. rewrite Ho. cbn [bind]. unfold sd_of. rewrite Hsd. rewrite Hcb. reflexivity. }
+  split; [exact Hrep|].
+  assert (Hbr : all_bytes (ci_raw (sd_ci sd)) = true).
+  { destruct Hsub as (pre & post & E). rewrite E in Hb. apply all_bytes_app_iff in Hb as [_ Hb]. apply all_bytes_app_iff in Hb as [Hb _]. exact Hb. }
+  split.
+  - intros b' Hs. apply (ci_bytes_spec_agree _ _ _ Hbr Hcb Hs).
+  - intros ctype tag payload Er Hsr Ho1 Ho2 Ht Hp.
+    rewrite Er in Hcb, Hsr. destruct (ci_bytes_is_econtent ctype tag payload Ho1 Ho2 Ht Hp Hsr) as [E _]. cbv zeta in E. rewrite E in Hcb. injection Hcb as <-. reflexivity.
+Qed.
+
+
+(* C05 (known deviation, recorded as C05:spec:cat:pkcs7-signedattrs-absent-for-non-data-content): the signer info relic writes into a
+   catalog has NO signed attributes although the content type is not id-data (RFC 5652 5.3 requires content-type and message-digest
+   attributes in that case) *)
+Theorem no_signed_attributes C sgn S x y : all_bytes x = true -> signer_wf S -> (forall k d, all_bytes (sgn k d) = true) ->
+  cat_sign C sgn S x = Ok y -> small y ->
+  exists o' sd' s, parse_cms y = Ok o' /\ o_sd o' = Some sd' /\ sd_sis sd' = [s] /\ si_auth s = None /\
+    ci_ctype (sd_ci sd') = OID_ctl /\ OID_ctl <> OID_data /\ spec_signed_attrs_preimage (si_raw s) = None.
+Proof.
+  intros Hb Hw Hsg H Hsm. destruct (content_preserved C sgn S x y Hb Hw Hsg H Hsm) as (o & sd & b & sig & Ho & Hsd & Hcb & -> & Hrep & _).
+  destruct (cat_sign_inv _ _ _ _ _ H) as (o2 & sd2 & b2 & Ho2 & Hsd2 & Hct & Hcb2 & Hy & _). rewrite Ho in Ho2. injection Ho2 as <-. rewrite Hsd in Hsd2. injection Hsd2 as <-.
+  rewrite Hcb in Hcb2. injection Hcb2 as <-. set (sig := sgn (sg_key S) (c_H C (sg_hash S) b)) in *.
+  exists (mkCms OID_sd (Some (parsed_sd S (sd_ci sd) sig))), (parsed_sd S (sd_ci sd) sig), (parsed_si S sig).
+  split; [exact Hrep|]. split; [reflexivity|]. split; [reflexivity|]. split; [reflexivity|]. split; [exact Hct|]. split; [vm_compute; discriminate|].
+  pose proof (small_sis_inner S (sd_ci sd) sig ltac:(rewrite <- Hy; exact Hsm)) as Hsi.
+  destruct (si_reparse S sig Hw (Hsg _ _) Hsi) as (Hv & Ht & Hp & t1 & t2 & t3 & t4 & t5 & Hall & T4).
+  unfold spec_signed_attrs_preimage, one. cbn [parsed_si si_raw].
+  change (enc_tlv T_SEQ (si_body S sig)) with (t_full (si_tlv S sig)). rewrite <- (app_nil_r (t_full (si_tlv S sig))).
+  change (t_full (si_tlv S sig) ++ []) with (concat (map t_full [si_tlv S sig])). rewrite read_all_concat by (constructor; [exact Hv|constructor]).
+  unfold children. cbn [si_tlv t_body]. rewrite Hall. rewrite T4. reflexivity.
+Qed.
+
+(* C01 (cat_sign_then_verify): relic's verifier, run on the bytes it wrote, accepts them under the certificate of the configured
+   chain that matches the signer's issuer and serial number, checking the signature over the digest of the eContent octets *)
+Theorem sign_then_verify C sgn S x y cf : all_bytes x = true -> signer_wf S -> (forall k d, all_bytes (sgn k d) = true) ->
+  cat_sign C sgn S x = Ok y -> small y ->
+  exists b c h, cat_hashin x = Ok b /\
+    pkcs_verify C y false [] cf = Ok (SdAccept (parsed_si S (sgn (sg_key S) (c_H C (sg_hash S) b))) c) /\
+    find_cert (fst (c_parse_certs C (Some (sg_chain S)))) (sg_issuer S) (sg_serial S) = Some c /\
+    c_hash_of C (sg_dalg S) = Some h /\
+    signature_accepted C c (new_si S (sgn (sg_key S) (c_H C (sg_hash S) b))) (c_H C h b).
+Proof.
+  intros Hb Hw Hsg H Hsm. destruct (digest_is_econtent C sgn S x y Hb Hw Hsg H Hsm) as (o & sd & b & Ho & Hsd & Hh & Hrep & _).
+  destruct (cat_sign_inv _ _ _ _ _ H) as (o2 & sd2 & b2 & Ho2 & Hsd2 & _ & Hcb & Hy & (s0 & c0 & Hv) & _).
+  rewrite Ho in Ho2. injection Ho2 as <-. rewrite Hsd in Hsd2. injection Hsd2 as <-.
+  assert (b2 = b).
+  { unfold cat_hashin in Hh. rewrite Ho in Hh. cbn [bind] in Hh. unfold sd_of in Hh. rewrite Hsd, Hcb in Hh. cbn [bind] in Hh. congruence. }
+  subst b2. set (sig := sgn (sg_key S) (c_H C (sg_hash S) b)) in *.
+  pose proof (small_sis_inner S (sd_ci sd) sig ltac:(rewrite <- Hy; exact Hsm)) as Hsi.
+  destruct (sd_verify_parsed_eq C S (sd_ci sd) sig None Hw (Hsg _ _) Hsi) as [Hsame Hwho]. cbn [ext_val] in Hsame, Hwho.
+  rewrite Hv in Hsame. destruct (sd_verify C (parsed_sd S (sd_ci sd) sig) Wnil false) as [s1 c1|e1] eqn:Ep; cbn [same_verdict] in Hsame; [|contradiction]. subst c1.
+  rewrite (Hwho s1 c0 eq_refl) in Ep.
+  (* what the accepting self check established *)
+  change Wnil with (ext_val None) in Hv. rewrite (sd_verify_one C (built_sd S (sd_ci sd) sig) (new_si S sig) None eq_refl) in Hv. rewrite select_by_ci in Hv. cbn [built_sd sd_ci sd_certs] in Hv.
+  rewrite (proj2 (ci_bytes_m_ok C (sd_ci sd) (Some b)) Hcb) in Hv.
+  destruct (ref_sd_step _ (Wby b) false _ _ (new_si S sig)) as [c|e] eqn:Est; [|discriminate]. injection Hv as _ ->.
+  apply ref_sd_step_accept in Est. rewrite hk_verify3, <- si_verify_def in Est.
+  destruct (si_verify_accept_inv _ _ _ _ _ _ Est) as (h & Hho & Hf & [(_ & _ & [Hk|Hk])|(Hne & _)]); [discriminate| |exfalso; apply Hne; reflexivity].
+  exists b, c0, h. split; [exact Hh|]. split.
+  - unfold pkcs_verify. rewrite pkcs_layout_ok_true. cbn [negb]. rewrite Hrep. cbn [bind]. unfold sd_of. cbn [o_sd].
+    unfold pkcs_cblob, pkcs_reads_content. cbn [bytes_eqb list_eqb negb andb ext_val]. rewrite Ep. reflexivity.
+  - split; [exact Hf|]. split; [exact Hho|exact Hk].
+Qed.
+
+(* C01 (cat_refuses_clean): what is not signed is refused with an error: input pkcs7.Unmarshal rejects; content that is not a
+   certificate trust list (also SignedData without the content field); a catalog without its content *)
+Theorem refuses_clean C sgn S x :
+  (forall e, parse_cms x = Err e -> cat_sign C sgn S x = Err e) /\
+  (forall o, parse_cms x = Ok o -> ci_ctype (sd_ci (sd_of o)) <> OID_ctl -> cat_sign C sgn S x = Err E_NOT_CATALOG) /\
+  (forall o, parse_cms x = Ok o -> ci_ctype (sd_ci (sd_of o)) = OID_ctl -> ci_bytes (ci_raw (sd_ci (sd_of o))) = Ok None ->
+     sg_chain S <> [] -> sg_samekey S = true -> cat_sign C sgn S x = Err E_SELFCHECK).
+Proof.
+  unfold cat_sign. rewrite cat_layout_ok_true. cbn [negb]. split; [|split].
+  - intros e ->. reflexivity.
+  - intros o -> Hn. cbn [bind]. unfold cat_refuses.
+    destruct (bytes_eqb (ci_ctype (sd_ci (sd_of o))) OID_ctl) eqn:E; [apply list_eqb_Z_eq in E; contradiction|reflexivity].
+  - intros o -> Hc Hb Hch Hsk. cbn [bind]. unfold cat_refuses. rewrite Hc.
+    replace (bytes_eqb OID_ctl OID_ctl) with true by (symmetry; apply list_eqb_Z_eq; reflexivity). cbn [negb].
+    unfold set_content_info. rewrite builder_layout_ok_true. cbn [negb]. rewrite Hb. cbn [bind fst snd].
+    unfold builder_sign. change (b_sign_no_content false) with false. cbv iota. unfold b_sign_bad_cert. rewrite Hsk.
+    replace (zlen (sg_chain S) <? 1) with false by (destruct (sg_chain S); [congruence|rewrite zlen_cons; pose proof (zlen_nonneg l); lia]).
+    cbn [negb orb]. destruct (builder_no_attrs (mkB (ci_ctype (sd_ci (sd_of o))) (c_H C (sg_hash S) []) None) eq_refl) as [_ Ep]. rewrite Ep.
+    cbn [bind fst snd b_digest]. change (0 =? 0) with true. cbv iota. rewrite built_cms_noattrs.
+    unfold ts_and_marshal. rewrite tsm_layout_ok_true. cbn [negb]. unfold sd_of at 1. cbn [o_sd].
+    change Wnil with (ext_val None).
+    rewrite (sd_verify_one C (built_sd S (sd_ci (sd_of o)) (sgn (sg_key S) (c_H C (sg_hash S) []))) (new_si S (sgn (sg_key S) (c_H C (sg_hash S) []))) None eq_refl).
+    rewrite select_by_ci. cbn [built_sd sd_ci].
+    rewrite (proj2 (ci_bytes_m_ok C (sd_ci (sd_of o)) None) Hb). reflexivity.
+Qed.
+
+(* C08: the digest preimage of a catalog does not depend on the signature it carries; signing again replaces the signer info and the
+   certificates and keeps the content; the is-signed probe answers true for every output *)
+Theorem hashin_ignores_signature C sgn S x y : all_bytes x = true -> signer_wf S -> (forall k d, all_bytes (sgn k d) = true) ->
+  cat_sign C sgn S x = Ok y -> small y -> cat_hashin y = cat_hashin x /\ cms_is_signed y = Ok true /\ all_bytes y = true.
+Proof.
+  intros Hb Hw Hsg H Hsm. destruct (digest_is_econtent C sgn S x y Hb Hw Hsg H Hsm) as (o & sd & b & Ho & Hsd & Hh & Hrep & _).
+  destruct (cat_sign_inv _ _ _ _ _ H) as (o2 & sd2 & b2 & Ho2 & Hsd2 & _ & Hcb & Hy & _).
+  rewrite Ho in Ho2. injection Ho2 as <-. rewrite Hsd in Hsd2. injection Hsd2 as <-.
+  split; [|split].
+  - rewrite Hh. unfold cat_hashin in Hh |- *. rewrite Hrep. rewrite Ho in Hh. cbn [bind] in *. unfold sd_of in *. rewrite Hsd in Hh. cbn [o_sd parsed_sd sd_ci]. exact Hh.
+  - unfold cms_is_signed. rewrite Hrep. reflexivity.
+  - pose proof (parse_cms_wf_ci x o sd Hb Ho Hsd) as Hci.
+    rewrite Hy. apply built_reparse; [exact Hw|apply Hsg|exact Hci|rewrite <- Hy; exact Hsm].
+Qed.
+Theorem resign_replaces C sgn S1 S2 x y1 y2 : all_bytes x = true -> signer_wf S1 -> signer_wf S2 -> (forall k d, all_bytes (sgn k d) = true) ->
+  cat_sign C sgn S1 x = Ok y1 -> small y1 -> cat_sign C sgn S2 y1 = Ok y2 -> small y2 ->
+  exists o sd b, parse_cms x = Ok o /\ o_sd o = Some sd /\ cat_hashin x = Ok b /\ cat_hashin y2 = Ok b /\
+    parse_cms y2 = Ok (mkCms OID_sd (Some (parsed_sd S2 (sd_ci sd) (sgn (sg_key S2) (c_H C (sg_hash S2) b))))).
+Proof.
+  intros Hb Hw1 Hw2 Hsg H1 Hs1 H2 Hs2.
+  destruct (digest_is_econtent C sgn S1 x y1 Hb Hw1 Hsg H1 Hs1) as (o & sd & b & Ho & Hsd & Hh & Hrep & _).
+  destruct (hashin_ignores_signature C sgn S1 x y1 Hb Hw1 Hsg H1 Hs1) as (Hh1 & _ & Hb1).
+  destruct (digest_is_econtent C sgn S2 y1 y2 Hb1 Hw2 Hsg H2 Hs2) as (o1 & sd1 & b1 & Ho1 & Hsd1 & Hh2 & Hrep2 & _).
+  destruct (hashin_ignores_signature C sgn S2 y1 y2 Hb1 Hw2 Hsg H2 Hs2) as (Hh3 & _ & _).
+  rewrite Hrep in Ho1. injection Ho1 as <-. cbn [o_sd] in Hsd1. injection Hsd1 as <-. cbn [parsed_sd sd_ci] in Hrep2.
+  rewrite Hh1, Hh in Hh2. injection Hh2 as <-.
+  exists o, sd, b. repeat split; try assumption. rewrite Hh3, Hh1. exact Hh.
+Qed.
+Theorem is_signed_spec x o : parse_cms x = Ok o -> cms_is_signed x = Ok (negb (zlen (sd_sis (sd_of o)) =? 0)).
+Proof. intros H. unfold cms_is_signed. rewrite H. reflexivity. Qed.
+
+(* ================================================================== PKCS#7 over arbitrary content *)
+Definition ci_att (content : bytes) : cinfo := new_ci OID_data (Some (enc_tlv T_OCT content)).
+Definition ci_det : cinfo := mkCi [] OID_data.
+Definition ci_det_p : cinfo := mkCi (enc_tlv T_SEQ (enc_tlv T_OID OID_data)) OID_data.
+
+Lemma wf_OID_data : oid_ok OID_data = true /\ all_bytes OID_data = true /\ small OID_data.
+Proof. split; [vm_compute; reflexivity|]. split; [vm_compute; reflexivity|]. unfold small. vm_compute. reflexivity. Qed.
+Lemma ci_att_raw content : ci_raw (ci_att content) = enc_tlv T_SEQ (enc_tlv T_OID OID_data ++ enc_tlv 160 (enc_tlv T_OCT content)).
+Proof. reflexivity. Qed.
+(* C05 (pkcs_digest_is_content): SetContentData stores the data as an OCTET STRING inside [0] and digests exactly the data *)
+Lemma ci_att_facts content : all_bytes content = true -> small (ci_raw (ci_att content)) ->
+  wf_ci (ci_att content) /\ ci_bytes (ci_raw (ci_att content)) = Ok (Some content) /\ spec_econtent (ci_raw (ci_att content)) = Some (Some content).
+Proof.
+  intros Hb Hs. destruct wf_OID_data as (H1 & H2 & H3). rewrite ci_att_raw in *.
+  destruct (ci_bytes_is_econtent OID_data T_OCT content H1 H2 ltac:(tagok) Hb Hs) as [E1 E2]. cbv zeta in E1, E2.
+  split; [|split; assumption].
+  set (body := enc_tlv T_OID OID_data ++ enc_tlv 160 (enc_tlv T_OCT content)) in *.
+  exists (mkTlv T_SEQ body (enc_tlv T_SEQ body)).
+  pose proof (small_enc_tlv _ _ Hs) as Hsb. pose proof Hsb as Hsb'. unfold body in Hsb'. apply small_app in Hsb' as [So Sw].
+  pose proof (small_enc_tlv _ _ Sw) as Si. pose proof (small_enc_tlv _ _ Si) as Sc.
+  assert (Bo : all_bytes (enc_tlv T_OID OID_data) = true) by (apply (valid_full_bytes (mkTlv T_OID OID_data (enc_tlv T_OID OID_data))); apply valid_enc; [tagok|exact H3|exact H2]).
+  assert (Bi : all_bytes (enc_tlv T_OCT content) = true) by (apply (valid_full_bytes (mkTlv T_OCT content (enc_tlv T_OCT content))); apply valid_enc; [tagok|exact Sc|exact Hb]).
+  assert (Bw : all_bytes (enc_tlv 160 (enc_tlv T_OCT content)) = true) by (apply (valid_full_bytes (mkTlv 160 (enc_tlv T_OCT content) (enc_tlv 160 (enc_tlv T_OCT content)))); apply valid_enc; [tagok|exact Si|exact Bi]).
+  split; [apply valid_enc; [tagok|exact Hsb|apply all_bytes_app_iff; split; assumption]|]. split; [reflexivity|].
+  unfold parse_ci. cbn [t_body t_full]. unfold body. rewrite read_expect_enc by (try tagok; exact H3). cbn [bind fst t_body]. rewrite H1. reflexivity.
+Qed.
+Lemma ci_det_p_facts : wf_ci ci_det_p /\ ci_bytes (ci_raw ci_det_p) = Ok None /\ emit_ci ci_det = ci_raw ci_det_p.
+Proof.
+  split; [|split; [vm_compute; reflexivity|reflexivity]].
+  exists (mkTlv T_SEQ (enc_tlv T_OID OID_data) (enc_tlv T_SEQ (enc_tlv T_OID OID_data))).
+  split; [apply valid_enc; [tagok|unfold small; vm_compute; reflexivity|vm_compute; reflexivity]|]. split; [reflexivity|vm_compute; reflexivity].
+Qed.
+Lemma emit_det S sig : emit_cms (mkCms OID_sd (Some (built_sd S ci_det sig))) = emit_cms (mkCms OID_sd (Some (built_sd S ci_det_p sig))).
+Proof.
+  unfold emit_cms, emit_sd_body, built_sd. cbn [o_ctype o_sd sd_version sd_dalgs sd_ci sd_certs sd_crls sd_sis].
+  destruct ci_det_p_facts as (Hw & _ & E). rewrite E. rewrite (emit_ci_wf _ Hw). reflexivity.
+Qed.
+Lemma detach_built S ci sig : detach (mkCms OID_sd (Some (built_sd S ci sig))) = mkCms OID_sd (Some (built_sd S (mkCi [] (ci_ctype ci)) sig)).
+Proof. reflexivity. Qed.
+
+Lemma pkcs_sign_inv C sgn S content detached y : all_bytes content = true -> small (ci_raw (ci_att content)) ->
+  pkcs_sign C sgn S content detached None = Ok y ->
+  (exists s c, sd_verify C (built_sd S (ci_att content) (sgn (sg_key S) (c_H C (sg_hash S) content))) Wnil false = SdAccept s c) /\
+  sg_chain S <> [] /\ sg_samekey S = true /\
+  y = emit_cms (mkCms OID_sd (Some (built_sd S (if detached then ci_det else ci_att content) (sgn (sg_key S) (c_H C (sg_hash S) content))))).
+Proof.
+  intros Hb Hs. destruct (ci_att_facts content Hb Hs) as (_ & Hcb & _).
+  unfold pkcs_sign, set_content_data, set_content_info. rewrite builder_layout_ok_true. cbn [negb]. fold (ci_att content). rewrite Hcb. cbn [bind fst snd].
+  intros H. apply bind_ok in H as (n & Hn & H). apply builder_sign_noattrs in Hn as (-> & Hch & Hsk).
+  apply bind_ok in H as (att & Ha & H). apply ts_and_marshal_inv in Ha as (-> & s & c & Hv). unfold sd_of in Hv. cbn [o_sd] in Hv.
+  split; [exists s, c; exact Hv|]. split; [exact Hch|]. split; [exact Hsk|].
+  destruct detached; injection H as <-; [rewrite detach_built|]; reflexivity.
+Qed.
+
+(* the step the self check took on the attached form *)
+Lemma selfcheck_step C S content sig s c : all_bytes content = true -> small (ci_raw (ci_att content)) ->
+  sd_verify C (built_sd S (ci_att content) sig) Wnil false = SdAccept s c ->
+  ref_sd_step (hooks3 (real_prims C)) (Wby content) false (fst (c_parse_certs C (Some (sg_chain S))))
+              (if snd (c_parse_certs C (Some (sg_chain S))) =? 0 then 0 else EV_PARSE) (new_si S sig) = VAccept c.
+Proof.
+  intros Hb Hs Hv. destruct (ci_att_facts content Hb Hs) as (_ & Hcb & _).
+  change Wnil with (ext_val None) in Hv. rewrite (sd_verify_one C (built_sd S (ci_att content) sig) (new_si S sig) None eq_refl) in Hv.
+  rewrite select_by_ci in Hv. cbn [built_sd sd_ci sd_certs] in Hv. rewrite (proj2 (ci_bytes_m_ok C (ci_att content) (Some content)) Hcb) in Hv.
+  destruct (ref_sd_step _ (Wby content) false _ _ (new_si S sig)) as [c'|e]; [|discriminate]. injection Hv as _ ->. reflexivity.
+Qed.
+
+Lemma cblob_none nod cf : pkcs_cblob nod [] cf = None.
+Proof. unfold pkcs_cblob, pkcs_reads_content. cbn [bytes_eqb list_eqb negb]. rewrite andb_false_r. reflexivity. Qed.
+Lemma cblob_some path cf : path <> [] -> pkcs_cblob false path cf = Some cf.
+Proof. intros H. unfold pkcs_cblob, pkcs_reads_content. destruct path; [congruence|reflexivity]. Qed.
+Lemma cblob_nodigests path cf : pkcs_cblob true path cf = None.
+Proof. reflexivity. Qed.
+
+Section PkcsRoundTrip.
+  Variables (C : crypto) (sgn : Z -> bytes -> bytes) (S : signer) (content : bytes).
+  Hypothesis Hb : all_bytes content = true.
+  Hypothesis Hw : signer_wf S.
+  Hypothesis Hsg : forall k d, all_bytes (sgn k d) = true.
+  Let sig := sgn (sg_key S) (c_H C (sg_hash S) content).
+
+  (* C01 (pkcs_attached_verify_roundtrip) / C02 (pkcs_attached_other_content_rejected): an attached signature verifies without
+     --content and with --content naming the same bytes; any other --content is refused before a signature is looked at *)
+  Theorem attached_roundtrip y : pkcs_sign C sgn S content false None = Ok y -> small y -> small (ci_raw (ci_att content)) ->
+    exists c, (forall cf, pkcs_verify C y false [] cf = Ok (SdAccept (parsed_si S sig) c)) /\
+              (forall path, pkcs_verify C y false path content = Ok (SdAccept (parsed_si S sig) c)) /\
+              (forall path other, path <> [] -> other <> content -> pkcs_verify C y false path other = Ok (SdReject EV_NEW)).
+  Proof.
+    intros H Hsm Hs. destruct (pkcs_sign_inv C sgn S content false y Hb Hs H) as ((s0 & c0 & Hv) & Hch & Hsk & Hy). fold sig in Hv, Hy.
+    destruct (ci_att_facts content Hb Hs) as (Hci & Hcb & _).
+    destruct (built_reparse S (ci_att content) sig Hw (Hsg _ _) Hci ltac:(rewrite <- Hy; exact Hsm)) as [Hrep _]. rewrite <- Hy in Hrep.
+    pose proof (small_sis_inner S (ci_att content) sig ltac:(rewrite <- Hy; exact Hsm)) as Hsi.
+    pose proof (selfcheck_step C S content sig s0 c0 Hb Hs Hv) as Hst.
+    assert (V : forall ext, (ext = None \/ ext = Some content) -> sd_verify C (parsed_sd S (ci_att content) sig) (ext_val ext) false = SdAccept (parsed_si S sig) c0).
+    { intros ext He. destruct (sd_verify_parsed_eq C S (ci_att content) sig ext Hw (Hsg _ _) Hsi) as [Hsame Hwho].
+      rewrite (sd_verify_one C (built_sd S (ci_att content) sig) (new_si S sig) ext eq_refl) in Hsame. rewrite select_by_ci in Hsame. cbn [built_sd sd_ci sd_certs] in Hsame.
+      rewrite (proj2 (ci_bytes_m_ok C (ci_att content) (Some content)) Hcb) in Hsame.
+      assert (E : match ext with None => SelContent (Wby content) | Some e => if bytes_eqb e content then SelContent (Wby content) else SelReject EV_NEW end = SelContent (Wby content)).
+      { destruct He as [->| ->]; [reflexivity|]. replace (bytes_eqb content content) with true by (symmetry; apply list_eqb_Z_eq; reflexivity). reflexivity. }
+      rewrite E, Hst in Hsame. destruct (sd_verify C (parsed_sd S (ci_att content) sig) (ext_val ext) false) as [s1 c1|e1] eqn:Ep; cbn [same_verdict] in Hsame; [|contradiction].
+      subst c1. rewrite (Hwho s1 c0 eq_refl). reflexivity. }
+    exists c0. split; [|split].
+    - intros cf. unfold pkcs_verify. rewrite pkcs_layout_ok_true. cbn [negb]. rewrite Hrep. cbn [bind]. unfold sd_of. cbn [o_sd]. rewrite cblob_none. rewrite (V None); auto.
+    - intros path. unfold pkcs_verify. rewrite pkcs_layout_ok_true. cbn [negb]. rewrite Hrep. cbn [bind]. unfold sd_of. cbn [o_sd].
+      destruct path as [|p0 path']; [rewrite cblob_none; rewrite (V None); auto|]. rewrite cblob_some by discriminate. rewrite (V (Some content)); auto.
+    - intros path other Hp Ho. unfold pkcs_verify. rewrite pkcs_layout_ok_true. cbn [negb]. rewrite Hrep. cbn [bind]. unfold sd_of. cbn [o_sd]. rewrite (cblob_some path other Hp).
+      rewrite (sd_verify_one C (parsed_sd S (ci_att content) sig) (parsed_si S sig) (Some other) eq_refl). rewrite select_by_ci. cbn [parsed_sd sd_ci].
+      rewrite (proj2 (ci_bytes_m_ok C (ci_att content) (Some content)) Hcb).
+      replace (bytes_eqb other content) with false; [reflexivity|]. symmetry. destruct (bytes_eqb other content) eqn:E; [apply list_eqb_Z_eq in E; contradiction|reflexivity].
+  Qed.
+
+  (* C01 (pkcs_detached_verify_roundtrip) / C02: a detached signature verifies with --content naming the signed bytes; without
+     --content it is refused; with other bytes it is refused as soon as the signature does not verify over their digest *)
+  Theorem detached_roundtrip y : pkcs_sign C sgn S content true None = Ok y -> small y -> small (ci_raw (ci_att content)) ->
+    exists c, (forall path, path <> [] -> pkcs_verify C y false path content = Ok (SdAccept (parsed_si S sig) c)) /\
+              (forall cf, pkcs_verify C y false [] cf = Ok (SdReject EV_NEW)) /\
+              (forall path other h, path <> [] -> c_hash_of C (sg_dalg S) = Some h ->
+                 (forall c', ~ signature_accepted C c' (new_si S sig) (c_H C h other)) ->
+                 exists e, pkcs_verify C y false path other = Ok (SdReject e)) /\
+              (forall path cf, pkcs_verify C y true path cf = Ok (sd_verify C (parsed_sd S ci_det_p sig) Wnil true)).
+  Proof.
+    intros H Hsm Hs. destruct (pkcs_sign_inv C sgn S content true y Hb Hs H) as ((s0 & c0 & Hv) & Hch & Hsk & Hy). fold sig in Hv, Hy.
+    rewrite emit_det in Hy. destruct ci_det_p_facts as (Hci & Hcb & _).
+    destruct (built_reparse S ci_det_p sig Hw (Hsg _ _) Hci ltac:(rewrite <- Hy; exact Hsm)) as [Hrep _]. rewrite <- Hy in Hrep.
+    pose proof (small_sis_inner S ci_det_p sig ltac:(rewrite <- Hy; exact Hsm)) as Hsi.
+    pose proof (selfcheck_step C S content sig s0 c0 Hb Hs Hv) as Hst.
+    assert (U : forall nod path cf, pkcs_verify C y nod path cf = Ok (sd_verify C (parsed_sd S ci_det_p sig) (ext_val (pkcs_cblob nod path cf)) nod)).
+    { intros nod path cf. unfold pkcs_verify. rewrite pkcs_layout_ok_true. cbn [negb]. rewrite Hrep. reflexivity. }
+    exists c0. split; [|split; [|split]].
+    - intros path Hp. rewrite U, (cblob_some path content Hp).
+      destruct (sd_verify_parsed_eq C S ci_det_p sig (Some content) Hw (Hsg _ _) Hsi) as [Hsame Hwho].
+      rewrite (sd_verify_one C (built_sd S ci_det_p sig) (new_si S sig) (Some content) eq_refl) in Hsame. rewrite select_by_ci in Hsame. cbn [built_sd sd_ci sd_certs] in Hsame.
+      rewrite (proj2 (ci_bytes_m_ok C ci_det_p None) Hcb), Hst in Hsame.
+      destruct (sd_verify C (parsed_sd S ci_det_p sig) (ext_val (Some content)) false) as [s1 c1|e1] eqn:Ep; cbn [same_verdict] in Hsame; [|contradiction].
+      subst c1. rewrite (Hwho s1 c0 eq_refl). reflexivity.
+    - intros cf. rewrite U, cblob_none. rewrite (sd_verify_one C (parsed_sd S ci_det_p sig) (parsed_si S sig) None eq_refl). rewrite select_by_ci. cbn [parsed_sd sd_ci].
+      rewrite (proj2 (ci_bytes_m_ok C ci_det_p None) Hcb). reflexivity.
+    - intros path other h Hp Hh Hno. rewrite U, (cblob_some path other Hp).
+      rewrite (sd_verify_one C (parsed_sd S ci_det_p sig) (parsed_si S sig) (Some other) eq_refl). rewrite select_by_ci. cbn [parsed_sd sd_ci sd_certs].
+      rewrite (proj2 (ci_bytes_m_ok C ci_det_p None) Hcb).
+      set (certs := fst (c_parse_certs C (Some (sg_chain S)))). set (cerr := if snd (c_parse_certs C (Some (sg_chain S))) =? 0 then 0 else EV_PARSE).
+      rewrite (step_parsed_eq C S sig other certs cerr Hw (Hsg _ _) Hsi).
+      assert (R : exists e, si_verify C (new_si S sig) (Wby other) false certs = VReject e).
+      { rewrite (si_verify_fields C (new_si S sig) other certs eq_refl (has_empty_new C S sig)). cbn [new_si si_dalg]. rewrite Hh.
+        unfold ref_finish. expose. cbn [si_issuer si_serial].
+        destruct (find_cert certs (si_issuer (new_si S sig)) (si_serial (new_si S sig))) as [c'|]; [|eexists; reflexivity].
+        specialize (Hno c'). unfold signature_accepted in Hno. fold (new_si S sig).
+        destruct (sig_decides (real_prims C) c' (new_si S sig) (c_H C h other)); [contradiction Hno; reflexivity| |]; cbn [sig_err]; eexists; reflexivity. }
+      destruct R as [e R]. unfold ref_sd_step. rewrite hk_verify3, <- si_verify_def, R.
+      destruct ((e =? EV_CERT) && negb (cerr =? 0)); eexists; reflexivity.
+    - intros path cf. rewrite U, cblob_nodigests. reflexivity.
+  Qed.
+End PkcsRoundTrip.
+
+(* C05: what SetContentData digests and stores *)
+Theorem digest_is_content C h data : all_bytes data = true -> small (ci_raw (ci_att data)) ->
+  set_content_data C h data = Ok (ci_att data, c_H C h data) /\ spec_econtent (ci_raw (ci_att data)) = Some (Some data) /\ ci_ctype (ci_att data) = OID_data.
+Proof.
+  intros Hb Hs. destruct (ci_att_facts data Hb Hs) as (_ & Hcb & Hsp).
+  unfold set_content_data, set_content_info. rewrite builder_layout_ok_true. cbn [negb]. fold (ci_att data). rewrite Hcb. repeat split; assumption.
+Qed.
+(* C01: the builder's refusals *)
+Theorem builder_refuses C sgn S ci digest attrs hsize ctype :
+  (sg_chain S = [] -> builder_sign C sgn S ci digest attrs = Err E_BUILDER) /\
+  (sg_samekey S = false -> builder_sign C sgn S ci digest attrs = Err E_BUILDER) /\
+  (zlen digest <> hsize -> set_detached_content hsize ctype digest = Err E_BUILDER) /\
+  (zlen digest = hsize -> set_detached_content hsize ctype digest = Ok (mkCi [] ctype, digest)).
+Proof.
+  unfold builder_sign, set_detached_content. rewrite builder_layout_ok_true. change (b_sign_no_content false) with false. cbn [negb]. unfold b_sign_bad_cert, b_detached_size_mismatch.
+  repeat split.
+  - intros ->. reflexivity.
+  - intros ->. rewrite orb_true_r. reflexivity.
+  - intros Hn. replace (zlen digest =? hsize) with false by lia. reflexivity.
+  - intros He. replace (zlen digest =? hsize) with true by lia. reflexivity.
+Qed.
+
+(* ================================================================== magic: a well-formed catalog that is NOT routed to the catalog signer *)
+Definition ex_alg : bytes := enc_tlv 48 (enc_tlv 6 [96; 134; 72; 1; 101; 3; 4; 2; 1] ++ [5; 0]).
+Definition ex_far_catalog : bytes :=
+  enc_tlv 48 (enc_tlv 6 OID_sd ++ enc_tlv 160 (enc_tlv 48 (enc_tlv 2 [1] ++ enc_tlv 49 (concat (repeat ex_alg 17)) ++
+              enc_tlv 48 (enc_tlv 6 OID_ctl ++ enc_tlv 160 (enc_tlv 48 [4; 1; 7])) ++ enc_tlv 49 []))).
+Theorem routes_every_catalog_refuted :
+  exists x o, parse_cms x = Ok o /\ ci_ctype (sd_ci (sd_of o)) = OID_ctl /\ spec_econtent (ci_raw (sd_ci (sd_of o))) = Some (Some [4; 1; 7]) /\
+              detect x = Some magic_FileTypePKCS7.
+Proof.
+  exists ex_far_catalog. eexists. split; [vm_compute; reflexivity|]. split; [vm_compute; reflexivity|]. split; vm_compute; reflexivity.
 Qed.
